@@ -305,9 +305,9 @@ theorem wf_deleteChannel {m m' : Mod} {rows : List Nat} {c : ChanDesc} (h : WF m
       · intro p hp
         exact hflags p (List.mem_filter.mp hp).1
       · intro r hr hs
-        exact h.recIdx r hr (List.contains_iff_mem.mpr (hmono _ (List.contains_iff_mem.mp hs)))
+        exact h.recIdx r (List.mem_filter.mp hr).1 (List.contains_iff_mem.mpr (hmono _ (List.contains_iff_mem.mp hs)))
       · intro p hp hs
-        exact h.extIdx p hp (List.contains_iff_mem.mpr (hmono _ (List.contains_iff_mem.mp hs)))
+        exact h.extIdx p (List.mem_filter.mp hp).1 (List.contains_iff_mem.mpr (hmono _ (List.contains_iff_mem.mp hs)))
     · cases heq
       exact ⟨hcols, hflags, h.recIdx, h.extIdx, h.grpIdx, h.edgeIdx⟩
 
